@@ -384,6 +384,9 @@ PTick == IF MaxPeerEv = 0 THEN Tick
 
 NewPeer(p, sh, nf) ==
   /\ PTick /\ ~conn[p] /\ UNCHANGED <<nfaults, ncrashes, down>>
+  \* bound of the small configurations: a non-full peer connects only as the first event of a
+  \* history and only to a client that is current (where its headers can reorganise the chain)
+  /\ IF nf = 1 /\ LightFirstOnly THEN nmsgs = 0 /\ (Synced(W) = TRUE) ELSE TRUE
   /\ Finish(HandleNewPeer(W, p, sh, nf = 0), [Act("NewPeer", p, <<>>, sh, "ok") EXCEPT !.nf = nf])
 
 DonePeer(p) ==
